@@ -2,6 +2,7 @@ package vsched
 
 import (
 	"fmt"
+	"os"
 	"strings"
 	"testing"
 	"testing/synctest"
@@ -35,6 +36,7 @@ type Stats struct {
 	Capped      bool
 	BoundDone   int
 	Transitions int
+	Slow        int
 }
 
 type Found struct {
@@ -82,7 +84,12 @@ func Explore(t *testing.T, h Harness, bound int, shard, nshards int, deadline ti
 	counter := 0
 	var explore func(prefix []int, labels []string, depth int)
 	run := func(prefix []int, labels []string) *Exec {
+		t0 := time.Now()
 		x := RunOne(t, h, prefix)
+		if d := time.Since(t0); d > 2*time.Second && x.S != nil {
+			st.Slow++
+			fmt.Fprintf(os.Stderr, "vsched: slow execution %v: verdict=%q steps=%d choices=%d\n", d, x.S.Verdict, x.S.Steps(), len(x.S.Trace))
+		}
 		st.Executions++
 		if x.S == nil {
 			return x
